@@ -16,7 +16,7 @@ import traceback
 HERE = os.path.dirname(os.path.abspath(__file__))
 sys.path.insert(0, HERE)
 
-from sa.core import Ctx, Report, finish  # noqa: E402
+from sa.core import Ctx, Report, finish, unlisted_violations  # noqa: E402
 from sa.model import AnalysisError  # noqa: E402
 
 ALL = ["C%02d" % i for i in range(1, 21)]
@@ -24,6 +24,7 @@ ALL = ["C%02d" % i for i in range(1, 21)]
 
 def run_one(pid, tier, repo, seed):
     t0 = time.time()
+    rep = None
     try:
         ctx = Ctx(repo, tier)
         mod = importlib.import_module("sa.props.%s" % pid.lower())
@@ -35,6 +36,12 @@ def run_one(pid, tier, repo, seed):
             selftest(pid, repo, rep, seed)
         return finish(rep, tier, seed, t0)
     except AnalysisError as e:
+        # an anchor vanished.  If rule instances were already found broken on the way (and they are not listed
+        # findings), they are the answer: report them; the lost anchor is recorded as a note.
+        if rep is not None and unlisted_violations(rep):
+            rep.note("analysis stopped early: %s" % e)
+            print("NOTE property=%s analysis stopped early after finding violations: %s" % (pid, e))
+            return finish(rep, tier, seed, t0)
         print("ANALYSIS-ERROR property=%s %s" % (pid, e))
         return 2
     except Exception as e:  # never let a traceback look like a violation
